@@ -284,6 +284,8 @@ def gen_competition(rng, athlib, nath=None, nheights=None, jo_heights=3, att_cho
             order = list(range(1, nath + 1))
             for b in order:
                 if len(plan[b]) > a and c.state in ('started', 'won'):
+                    if probes and rng.random() < 0.12:
+                        do(('bar', h - rng.choice((0, 1, 2, 3))))      # mid-round: the bar cannot stay or go down; must be refused and change nothing
                     t = plan[b][a]
                     do(('trial', b, {'o': 'o', 'x': 'x', '-': 'p', 'r': 'r'}[t]))
         probe()
